@@ -11,7 +11,7 @@ from harness.worker import Stream
 
 OBLIGATIONS = [
     "PgmVerif.C19_symmetric", "PgmVerif.C19_row_perm", "PgmVerif.C19_zero_on_independent", "PgmVerif.C19_lambda_tie",
-    "PgmVerif.C19_pearson_cell", "PgmVerif.C19_pearson_stat_nonneg",
+    "PgmVerif.C19_pearson_cell", "PgmVerif.C19_pearson_stat_nonneg", "PgmVerif.C19_yates_between",
 ]
 PARTIAL = ["p-values use scipy's chi-square / t tails on both sides (trusted); statistics for non-integer lambda are evaluated in floats from "
            "the model's exact observed / expected tables",
